@@ -146,6 +146,10 @@ def s_variation(env):
         ("repB", "repair_dna", (env["strand"], accB, start, k), {"has_indel": True}),
         ("capA", "approximate_capacity", (accA,), {"repeats": 1}),
         ("capB", "approximate_capacity", (accB,), {"repeats": 1}),
+        ("SEED-5", None, (), {}),
+        ("capA-r2", "approximate_capacity", (accA,), {"repeats": 2}),
+        ("SEED-5", None, (), {}),
+        ("capB-r2", "approximate_capacity", (accB,), {"repeats": 2}),
         ("findA", "find_vertices", (k, fA), {}),
         ("findB", "find_vertices", (k, fB), {}),
         ("findA2", "find_vertices", (k, fA), {}),
